@@ -1,6 +1,6 @@
 (* C01 correspondence: observations of the real limit.Reader/Writer, rate.Limiter and of whole tunnels
    (in-process frps + real frpc) against the model, and the property monitors on observed traces. *)
-From FRP Require Export Corr.Common Model.Limit Model.Bucket Model.Stack Model.Bridge gen.GenStacks.
+From FRP Require Export Corr.Common Model.Limit Model.Bucket Model.Stack Model.Bridge Model.Bandwidth gen.GenStacks.
 Open Scope string_scope.
 Open Scope list_scope.
 Open Scope Z_scope.
@@ -27,7 +27,13 @@ Inductive case :=
 (* tcpMux on, one side writes [sent] bytes and closes at once, the other side drains through a bandwidth limit of
    [rate] B/s (dir 0: upload, client-side limit; 1: download, server-side limit): bytes the reader got before its
    end of stream, were they identical, was it a clean EOF *)
-| CDrain (dir rate sent got : Z) (identical eof : bool)
+| CDrain (dir : Z) (limit : bytes) (sent got : Z) (identical eof : bool) (elapsed_ms : Z)
+(* the real types.NewBandwidthQuantity on a configured string: accepted?, bytes *)
+| CBw (s : bytes) (ok : bool) (n : Z)
+(* stcp through a visitor whose frps->visitor traffic is batched by a relay (handshake answer and first tunnel bytes
+   arrive in one read), backend speaks first: first banner as received; then the stream idles longer than the
+   visitor's handshake deadline and the backend sends a second banner *)
+| CVisitor (enc comp : bool) (banner1 got1 : bytes) (idle_ms : Z) (banner2 got2 : bytes)
 (* one user connection through a real tunnel *)
 | CTunnel (cfg : string)
     (proxies : list (string * Z * Z))      (* proxy name, public endpoint id, backend id *)
@@ -114,11 +120,28 @@ Definition check_case (c : case) : Z :=
   | CMuxFirst _ down user_got =>
       (* whatever the schedule, the user's stream is the answer followed by the backend's bytes *)
       if bytes_eqb user_got (resp_bytes connect_ok_response (mux_prog_of muxer_handle_events) ++ down) then 0 else 33
-  | CDrain _ rate sent got identical eof =>
-      let inflight := Z.min sent 6291456 in
-      if drain_delivered yamux_default_close_timeout_ms rate inflight =? inflight then
-        (if (got =? sent) && identical && eof then 0 else 40)
-      else 0   (* the model itself predicts a truncation for this rate (below window / StreamCloseTimeout) *)
+  | CDrain _ limit sent got identical eof elapsed_ms =>
+      match bw_parse limit with
+      | BwOk rate =>
+          if rate <=? 0 then 42
+          else
+            let inflight := Z.min sent 6291456 in
+            if drain_delivered yamux_default_close_timeout_ms rate inflight =? inflight then
+              if negb ((got =? sent) && identical && eof) then 40
+              (* the limiter made from the configured string really throttled: sent - burst bytes need (sent - burst) / rate *)
+              else if negb (1000 * (sent - rate) <=? rate * elapsed_ms + rate * elapsed_ms / 4 + 1000 * 65536) then 41
+              else 0
+            else 0   (* the model itself predicts a truncation for this rate (below window / StreamCloseTimeout) *)
+      | _ => 42
+      end
+  | CBw s ok n =>
+      match bw_parse s with
+      | BwOk b => if ok && (n =? b) then 0 else 50
+      | BwErr => if ok then 51 else 0
+      | BwOutside => 0
+      end
+  | CVisitor _ _ banner1 got1 _ banner2 got2 =>
+      if negb (bytes_eqb banner1 got1) then 60 else if negb (bytes_eqb banner2 got2) then 61 else 0
   | CTunnel _ proxies endpoint reached ppver usrc udst hdr us ur ds dr ueq deq uh dh mode cte close_ms bound_ms rate burst total elapsed_ms =>
       match predicted_backend proxies endpoint with
       | None => 20
@@ -155,7 +178,10 @@ Definition slow_receiver_witness_truncates : bool :=
   drain_delivered yamux_default_close_timeout_ms 8192 4194304 <? 4194304.
 
 Definition is_first (c : case) : bool := match c with CMuxFirst _ _ _ => true | _ => false end.
-Definition is_drain (c : case) : bool := match c with CDrain _ _ _ _ _ _ => true | _ => false end.
+Definition is_drain (c : case) : bool := match c with CDrain _ _ _ _ _ _ _ => true | _ => false end.
+Definition is_visitor (c : case) : bool := match c with CVisitor _ _ _ _ _ _ _ => true | _ => false end.
+Definition is_fraction (c : case) : bool :=
+  match c with CBw s true n => match bw_parse s with BwOk b => (0 <? b) && existsb (fun x => Z_of_byte x =? 46) s | _ => false end | _ => false end.
 Definition is_split (c : case) : bool :=
   match c with CLimW _ _ _ (_ :: _ :: _) => true | _ => false end.
 Definition is_waiting (c : case) : bool :=
